@@ -365,6 +365,9 @@ func (e *Exec) callStatic(fr *frame, st *State, fn *ssa.Function, args, bindings
 		}
 		e.W.Note(fmt.Sprintf("callee %s not inlined (%v): abstracted by havoc", shortFn(fn), err))
 	}
+	if os.Getenv("GOVC_DEBUG_HAVOC") != "" {
+		fmt.Fprintf(os.Stderr, "unknown call %s: blocks=%d inRepo=%v frames=%d max=%d\n", shortFn(fn), len(fn.Blocks), inRepo, len(e.frames), e.MaxInline)
+	}
 	return e.unknownCall(st, shortFn(fn), resType, pos)
 }
 
@@ -510,12 +513,25 @@ func (e *Exec) applyHavoc(st *State, h *hctx, fn *ssa.Function, resType types.Ty
 				}
 				continue
 			}
+			if l.key == "G|*" {
+				// every ghost variable known so far
+				for k := range e.ghostNames {
+					if e.ghostFrameRestricted("G|" + k) {
+						h.pendingGhost = append(h.pendingGhost, pendingGhostCheck{"G|" + k, e.ghostInt(st, k)})
+					}
+					st.Ghost["G|"+k] = e.fresh("g."+k, ghostSort(k))
+					if e.disc != nil {
+						e.disc.ghost["G|"+k] = true
+					}
+				}
+				continue
+			}
 			if strings.HasPrefix(l.key, "G|") {
 				// whether the counter really changes is decided after the callee's ensures are known
 				if e.ghostFrameRestricted(l.key) {
 					h.pendingGhost = append(h.pendingGhost, pendingGhostCheck{l.key, e.ghostInt(st, l.key[2:])})
 				}
-				st.Ghost[l.key] = e.fresh("g."+l.key[2:], BV64)
+				st.Ghost[l.key] = e.fresh("g."+l.key[2:], ghostSort(l.key[2:]))
 				if e.disc != nil {
 					e.disc.ghost[l.key] = true
 				}
@@ -735,6 +751,33 @@ func (e *Exec) verifIntrinsic(fr *frame, st *State, name string, fn *ssa.Functio
 		return smt.App("uf|"+args[0].Name, BV64, IVal(args[1]))
 	case "verif_ghost_int":
 		return e.ghostInt(st, args[0].Name)
+	case "verif_ghost_map":
+		return smt.Select(e.ghostInt(st, args[0].Name), args[1])
+	case "verif_ghost_map_old":
+		// the entry value of the map at a key computed in the current state
+		snap := e.snapshotFor(fr)
+		if snap == nil {
+			unsupported("verif_ghost_map_old without a snapshot")
+		}
+		return smt.Select(e.ghostInt(snap, args[0].Name), args[1])
+	case "verif_ghost_map_kept":
+		// every key set (non-zero) in map `mark` at entry still has its entry value in map `other`
+		snap := e.snapshotFor(fr)
+		if snap == nil {
+			unsupported("verif_ghost_map_kept without a snapshot")
+		}
+		e.boundCtr++
+		k := smt.BoundVar(fmt.Sprintf("q!%d", e.boundCtr), BV64)
+		om, oo, co := e.ghostInt(snap, args[0].Name), e.ghostInt(snap, args[1].Name), e.ghostInt(st, args[1].Name)
+		return smt.Forall([]*smt.Term{k}, smt.Or(smt.Eq(smt.Select(om, k), smt.Const(64, 0)), smt.Eq(smt.Select(co, k), smt.Select(oo, k))))
+	case "verif_ghost_map_upd":
+		// the map now == the map at entry with [k] := v if c (every other key unchanged)
+		snap := e.snapshotFor(fr)
+		if snap == nil {
+			unsupported("verif_ghost_map_upd without a snapshot")
+		}
+		old := e.ghostInt(snap, args[0].Name)
+		return smt.Eq(e.ghostInt(st, args[0].Name), smt.Store(old, args[1], smt.Ite(args[2], args[3], smt.Select(old, args[1]))))
 	case "verif_modifies_all":
 		h := e.curH()
 		h.hasMod = true
@@ -957,9 +1000,18 @@ func (e *Exec) ghostInt(st *State, name string) *smt.Term {
 		return v
 	}
 	if st.Epoch > 0 {
-		return smt.Var(fmt.Sprintf("g@%d|%s", st.Epoch, name), BV64)
+		return smt.Var(fmt.Sprintf("g@%d|%s", st.Epoch, name), ghostSort(name))
 	}
-	return smt.Var("g0|"+name, BV64)
+	return smt.Var("g0|"+name, ghostSort(name))
+}
+
+// ghostSort: ghost variables are 64-bit counters/registers; a name starting with "M:" is a ghost map
+// from 64-bit keys to 64-bit values (verif_ghost_map / verif_ghost_map_upd).
+func ghostSort(name string) *smt.Sort {
+	if strings.HasPrefix(name, "M:") {
+		return smt.Array(BV64, BV64)
+	}
+	return BV64
 }
 
 // ghostFrameRestricted: some active frame does not list the ghost variable.
@@ -974,7 +1026,7 @@ func (e *Exec) ghostFrameRestricted(key string) bool {
 		}
 		ok := false
 		for _, l := range fs.locs {
-			if l.key == key {
+			if l.key == key || l.key == "G|*" {
 				ok = true
 			}
 		}
